@@ -241,6 +241,100 @@ impl<W: WorldDriver> BWorld<W> {
 }
 
 // ----------------------------------------------------------------------------------------------
+// accesses made from inside a clone (a component's `Clone` impl that reaches the world again)
+// ----------------------------------------------------------------------------------------------
+
+/// While gecs copies an archetype it holds a shared borrow of every column of that archetype
+/// (anchor of C11: "Clone takes a shared borrow of every column first"), and it reads the columns
+/// for the whole duration of the copy. User code runs in the middle of the copy: every component's
+/// `Clone::clone`. An access made from there (the world is reachable through an `Rc` or a
+/// thread-local in safe code) must be refused iff it wants a column of the archetype being copied
+/// mutably; shared accesses, and accesses to an archetype that is not being copied, must be granted.
+/// Enumerated: every archetype with an instrumented `Clone` column x {Archetype::clone,
+/// World::clone with only that archetype populated} x inner kind x every column (+ one column of
+/// another archetype) on the given populations. Returns (combinations run, must-panic ones).
+pub fn clone_reentrancy<W: WorldDriver>(pops: &[(u8, Option<u8>)]) -> Result<(u64, u64), (String, String)> {
+    let infos = W::archs();
+    let n = infos.len();
+    let inner_kinds = [BKind::SliceS, BKind::SliceM, BKind::CompS, BKind::CompM, BKind::FindBorrowS, BKind::FindBorrowM, BKind::IterBorrowS, BKind::IterBorrowM];
+    let mut combos = 0u64;
+    let mut must_panic = 0u64;
+    for a in 0..n {
+        let has_hooked_clone = infos[a].tracked.iter().any(|t| *t) || infos[a].tok_cols > 0 || infos[a].zst_tracked > 0;
+        if !has_hooked_clone || pops.get(a).map_or(true, |p| p.0 == 0) {
+            continue;
+        }
+        for world_level in [false, true] {
+            // world level: only archetype `a` is populated, so the first instrumented Clone that
+            // runs belongs to `a` (archetypes are copied one after the other)
+            let pp: Vec<(u8, Option<u8>)> = (0..n).map(|i| if world_level && i != a { (0, None) } else { pops.get(i).copied().unwrap_or((0, None)) }).collect();
+            let other = (0..n).find(|b| *b != a && pp.get(*b).map_or(false, |p| p.0 > 0));
+            let mut targets: Vec<(usize, usize)> = (0..infos[a].ncols()).map(|c| (a, c)).collect();
+            if let Some(b) = other {
+                targets.push((b, 0));
+            }
+            for (ta, tc) in targets {
+                for kind in inner_kinds {
+                    let bw = build_world::<W>(&pp);
+                    let key = bw.order[ta].first().copied();
+                    if key.is_none() {
+                        continue;
+                    }
+                    let acc = BAccess { kind, arch: ta, col: tc, key, write: 0x5151_5151_5151_5151 };
+                    let mut outcome: Option<Result<bool, String>> = None;
+                    let r = {
+                        let w = &bw.w;
+                        let outcome = &mut outcome;
+                        let mut hook = || {
+                            let mut ran = false;
+                            let r = catch(|| w.baccess(&acc, &mut |_| ran = true));
+                            *outcome = Some(r.map(|()| ran));
+                        };
+                        catch(|| w.reentrant_clone(a, world_level, &mut hook))
+                    };
+                    let desc = format!(
+                        "{} of {} with {}[{}.{}] made from inside a component's Clone::clone during the copy",
+                        if world_level { "World::clone" } else { "Archetype::clone" },
+                        infos[a].name,
+                        kind.name(),
+                        infos[ta].name,
+                        infos[ta].col_names[tc]
+                    );
+                    let text = format!("clone_reentrancy world_level={} arch={} kind={} target={}.{} pops={:?}", world_level, a, kind.name(), ta, tc, pp);
+                    combos += 1;
+                    if let Err(m) = r {
+                        return Err((text, format!("{}: the clone itself panicked although the inner access was contained: {}", desc, m)));
+                    }
+                    let conflict = kind.mutable() && ta == a;
+                    if conflict {
+                        must_panic += 1;
+                    }
+                    match outcome {
+                        None => return Err((text, format!("{}: harness: no instrumented Clone ran", desc))),
+                        Some(Ok(_)) if conflict => {
+                            return Err((text, format!("{}: a mutable borrow of a column that the clone is reading was granted (must panic instead of aliasing)", desc)))
+                        }
+                        Some(Err(m)) if conflict => {
+                            if !m.contains("borrowed") {
+                                return Err((text, format!("{}: refused with an unexpected message: {}", desc, m)));
+                            }
+                        }
+                        Some(Err(m)) => return Err((text, format!("{}: refused although nothing conflicts (shared access, or another archetype): {}", desc, m))),
+                        Some(Ok(ran)) => {
+                            if !ran {
+                                return Err((text, format!("{}: the access did not execute", desc)));
+                            }
+                        }
+                    }
+                    bw.all_released().map_err(|m| (text.clone(), format!("after {}: {}", desc, m)))?;
+                }
+            }
+        }
+    }
+    Ok((combos, must_panic))
+}
+
+// ----------------------------------------------------------------------------------------------
 // exhaustive pair matrix
 // ----------------------------------------------------------------------------------------------
 
